@@ -18,11 +18,18 @@ fn hot_first_touch(ctx: &mut Ctx) {
     let rounds = if ctx.tier_thorough { 400 } else { 40 };
     let junk: String = std::iter::repeat("{{ 1 | plus: 2 }}{% assign q = 'z' %}").take(4000).collect();
     let big: Vec<Node> = vec![Node::Comment(junk), text("<big:"), Node::Incr("n".into()), text(">")];
-    let partials: Vec<PartialDef> = vec![("big".into(), Ok(big)), ("broken".into(), Err(format!("{}{{% if %}}", "{{ 1 }}".repeat(4000))))];
+    // a partial that calls itself 25 levels deep (bounded by a counter): deep nesting in many threads at once
+    let rec: Vec<Node> = vec![
+        Node::Capture("_".into(), vec![Node::Incr("n".into())]),
+        Node::Cond { c: Cond::Bin(var("n"), CmpOp::Lt, lit_i(25)), mode: true, thn: vec![Node::Include(lit_s("rec"), vec![])], els: None, elsif: false },
+        text("x"),
+    ];
+    let partials: Vec<PartialDef> = vec![("big".into(), Ok(big)), ("rec".into(), Ok(rec)), ("broken".into(), Err(format!("{}{{% if %}}", "{{ 1 }}".repeat(4000))))];
     let templates: Vec<Vec<Node>> = vec![
         vec![text("a"), Node::Include(lit_s("big"), vec![]), Node::Render(lit_s("big"), RForm::Plain, vec![])],
         vec![Node::Render(lit_s("big"), RForm::Plain, vec![]), text("b")],
         vec![text("c"), Node::Include(lit_s("broken"), vec![])],
+        vec![Node::Include(lit_s("rec"), vec![]), text("|"), Node::Include(lit_s("rec"), vec![]), out(var("n"))],
     ];
     let texts: Arc<Vec<String>> = Arc::new(templates.iter().map(|t| src_tmpl(t)).collect());
     let data = Arc::new(liquid_core::model::Object::new());
@@ -39,14 +46,16 @@ fn hot_first_touch(ctx: &mut Ctx) {
             let ti = th % texts.len();
             std::thread::spawn(move || {
                 barrier.wait();
-                let obs = render_text(&shared, &texts[ti], &data);
-                let _ = tx.send((ti, obs.tokens()));
+                for _ in 0..3 {
+                    let obs = render_text(&shared, &texts[ti], &data);
+                    let _ = tx.send((ti, obs.tokens()));
+                }
             });
         }
         drop(tx);
         let mut got = Vec::new();
         let mut deadlock = false;
-        for _ in 0..nthreads {
+        for _ in 0..(3 * nthreads) {
             match rx.recv_timeout(Duration::from_secs(30)) {
                 Ok(v) => got.push(v),
                 Err(_) => {
